@@ -486,3 +486,238 @@ Proof.
       rewrite J', JM'. cbn [bind]. eauto.
     + rewrite M2. cbn [bind]. eauto.
 Qed.
+
+(* ================================================================== every numeric cell: which response field it prints *)
+(* how a cell prints a value of the response: raw, or rounded again to two decimals *)
+Definition raw_of (jv : json) : cell := match jv with JNum q => CNum q | JStr s => CStr s | _ => CEmpty end.
+Definition round_of (jv : json) : cell := match jv with JNum q => CNum (round2q q) | _ => CEmpty end.
+
+(* column `col` of the row prints (through f) the metric `name` of the metric list pm, which states the value v *)
+Definition prints (row : list (string * cell)) (col : string) (pm : list json) (name : string)
+           (f : json -> cell) (v : mval) : Prop :=
+  exists jv, read_property pm name = Some jv /\ mval_rel v jv /\ sget col row = Some (f jv).
+
+Lemma prints_round_value : forall row col pm name x,
+  prints row col pm name round_of (MNum (round2q x)) ->
+  exists c, sget col row = Some (CNum c) /\ (c == round2q x)%Q.
+Proof.
+  intros row col pm name x (jv & _ & (q' & -> & V) & S). cbn [round_of] in S.
+  eexists. split; [exact S|]. apply round2q_of_stated. exact V.
+Qed.
+Lemma prints_raw_value : forall row col pm name x,
+  prints row col pm name raw_of (MNum x) -> exists c, sget col row = Some (CNum c) /\ (c == x)%Q.
+Proof. intros row col pm name x (jv & _ & (q' & -> & V) & S). cbn [raw_of] in S. eauto. Qed.
+
+Lemma raw_cell_raw_of : forall v jv, mval_rel v jv -> raw_cell (Some jv) = Ok (raw_of jv).
+Proof. intros v jv H. rewrite (raw_cell_mval _ _ H). reflexivity. Qed.
+
+Lemma jsontopath_metric_full : forall rx o l pm pdbm,
+  expected_metrics rx o = Some l ->
+  (forall name v, In (name, v) l -> exists jv, read_property pm name = Some jv /\ mval_rel v jv) ->
+  exists m1 m2 m4 lo hi p1 p2 p3 j1 j2 j4 j5 j6 j7 j8 j9 q11,
+    qmean (r_snr rx) = Some m1 /\ qmean (r_snr01 rx) = Some m2 /\ qmean (r_osnr01 rx) = Some m4 /\
+    qmin_list (r_snr01 rx) = Some lo /\ qmax_list (r_snr01 rx) = Some hi /\
+    penalty_val (r_pdl rx) = Some p1 /\ penalty_val (r_cd rx) = Some p2 /\ penalty_val (r_pmd rx) = Some p3 /\
+    (read_property pm SNR_BW = Some j1 /\ mval_rel (MNum (round2q m1)) j1) /\
+    (read_property pm SNR_01NM = Some j2 /\ mval_rel (MNum (round2q m2)) j2) /\
+    (read_property pm OSNR_01NM = Some j4 /\ mval_rel (MNum (round2q m4)) j4) /\
+    (read_property pm LOWER_SNR = Some j5 /\ mval_rel (MNum (round2q lo)) j5) /\
+    (read_property pm UPPER_SNR = Some j6 /\ mval_rel (MNum (round2q hi)) j6) /\
+    (read_property pm PDL_PEN = Some j7 /\ mval_rel p1 j7) /\
+    (read_property pm CD_PEN = Some j8 /\ mval_rel p2 j8) /\
+    (read_property pm PMD_PEN = Some j9 /\ mval_rel p3 j9) /\
+    (read_property pm PATH_BW = Some (JNum q11) /\ (q11 == o_bw o)%Q) /\
+    jsontopath_metric (Some (JArr pm)) pdbm =
+      Ok [round_of j4; round_of j2; round_of j1; raw_of j5; raw_of j6; raw_of j7; raw_of j8; raw_of j9;
+          CNum (round2q pdbm); CNum (round2q (q11 / (1000000000 # 1)))].
+Proof.
+  intros rx o l pm pdbm E H.
+  destruct (expected_metrics_values _ _ _ E) as (m1 & m2 & m3 & m4 & lo & hi & p1 & p2 & p3 &
+    Q1 & Q2 & Q3 & Q4 & Q5 & Q6 & P1 & P2 & P3 & ->).
+  destruct (H SNR_BW _ ltac:(cbn; auto)) as (j1 & R1 & V1).
+  destruct (H SNR_01NM _ ltac:(cbn; auto)) as (j2 & R2 & V2).
+  destruct (H OSNR_01NM _ ltac:(cbn; auto 6)) as (j4 & R4 & V4).
+  destruct (H LOWER_SNR _ ltac:(cbn; auto 7)) as (j5 & R5 & V5).
+  destruct (H UPPER_SNR _ ltac:(cbn; auto 8)) as (j6 & R6 & V6).
+  destruct (H PDL_PEN _ ltac:(cbn; auto 9)) as (j7 & R7 & V7).
+  destruct (H CD_PEN _ ltac:(cbn; auto 10)) as (j8 & R8 & V8).
+  destruct (H PMD_PEN _ ltac:(cbn; auto 11)) as (j9 & R9 & V9).
+  destruct (H REF_POWER _ ltac:(cbn; auto 12)) as (j10 & R10 & (q10 & -> & V10)).
+  destruct (H PATH_BW _ ltac:(cbn; auto 13)) as (j11 & R11 & (q11 & -> & V11)).
+  exists m1, m2, m4, lo, hi, p1, p2, p3, j1, j2, j4, j5, j6, j7, j8, j9, q11.
+  repeat (split; [assumption|]).
+  split; [split; assumption|]. split; [split; assumption|]. split; [split; assumption|].
+  split; [split; assumption|]. split; [split; assumption|]. split; [split; assumption|].
+  split; [split; assumption|]. split; [split; assumption|]. split; [split; assumption|].
+  unfold jsontopath_metric. rewrite R4, R2, R1, R5, R6, R7, R8, R9, R10, R11.
+  rewrite (raw_cell_raw_of _ _ V5), (raw_cell_raw_of _ _ V6), (raw_cell_raw_of _ _ V7),
+          (raw_cell_raw_of _ _ V8), (raw_cell_raw_of _ _ V9).
+  destruct V1 as (q1 & -> & _). destruct V2 as (q2 & -> & _). destruct V4 as (q4 & -> & _).
+  cbn [round_cell bind round_of]. reflexivity.
+Qed.
+
+(* the eight metric columns of one direction *)
+Definition metric_columns (pre : string) (row : list (string * cell)) (pm : list json)
+           (m1 m2 m4 lo hi : Q) (p1 p2 p3 : mval) : Prop :=
+  prints row (pre ++ "OSNR-0.1nm (average)") pm OSNR_01NM round_of (MNum (round2q m4)) /\
+  prints row (pre ++ "SNR-0.1nm (average)") pm SNR_01NM round_of (MNum (round2q m2)) /\
+  prints row (pre ++ "SNR-bandwidth (average)") pm SNR_BW round_of (MNum (round2q m1)) /\
+  prints row (pre ++ "SNR-0.1nm (min)") pm LOWER_SNR raw_of (MNum (round2q lo)) /\
+  prints row (pre ++ "SNR-0.1nm (max)") pm UPPER_SNR raw_of (MNum (round2q hi)) /\
+  prints row (pre ++ "PDL_penalty") pm PDL_PEN raw_of p1 /\
+  prints row (pre ++ "CD_penalty") pm CD_PEN raw_of p2 /\
+  prints row (pre ++ "PMD_penalty") pm PMD_PEN raw_of p3.
+
+Definition receiver_figures (rx : rxfig) (m1 m2 m4 lo hi : Q) (p1 p2 p3 : mval) : Prop :=
+  qmean (r_snr rx) = Some m1 /\ qmean (r_snr01 rx) = Some m2 /\ qmean (r_osnr01 rx) = Some m4 /\
+  qmin_list (r_snr01 rx) = Some lo /\ qmax_list (r_snr01 rx) = Some hi /\
+  penalty_val (r_pdl rx) = Some p1 /\ penalty_val (r_cd rx) = Some p2 /\ penalty_val (r_pmd rx) = Some p3.
+
+Ltac solve_prints R V := eexists; split; [exact R|split; [exact V|sget_simp; reflexivity]].
+
+Theorem csv_cells_served : forall o resp eqp margin pdbm row,
+  Spec o resp -> o_block o = None -> ends_trx o ->
+  csv_row eqp margin pdbm resp = Ok row ->
+  exists rx mname md m1 m2 m4 lo hi p1 p2 p3,
+    o_fwd o = Some rx /\ o_mode o = Some mname /\ mode_lookup eqp (o_tsp o) mname = Some md /\
+    receiver_figures rx m1 m2 m4 lo hi p1 p2 p3 /\
+    (* forward columns print the 'path-metric' entries, which state the forward receiver *)
+    metric_columns "" row (metric_list "path-metric" resp) m1 m2 m4 lo hi p1 p2 p3 /\
+    (* transponder figures come from the equipment library, input power from the reference power *)
+    sget "baud rate (Gbaud)" row = Some (CNum (round2q (m_baud md / giga))) /\
+    sget "bit rate" row = Some (CNum (round2q (m_bitrate md / giga))) /\
+    sget "input power (dBm)" row = Some (CNum (round2q pdbm)) /\
+    (* number of transponder pairs = ceil(bandwidth / bit rate) on the two printed (rounded, Gbit/s) values *)
+    (let nb := Qceiling (round2q (o_bw o / giga) / round2q (m_bitrate md / giga)) in
+     sget "nb of tsp pairs" row = Some (CNum (inject_Z nb)) /\
+     sget "total cost" row = Some (CNum (inject_Z nb * m_cost md)%Q)) /\
+    (* reversed-path columns print the 'z-a-path-metric' entries (reverse receiver), present iff bidirectional *)
+    (if o_bidir o then
+       exists rv n1 n2 n4 lo' hi' r1 r2 r3,
+         o_rev o = Some rv /\ receiver_figures rv n1 n2 n4 lo' hi' r1 r2 r3 /\
+         metric_columns "reversed path " row (metric_list "z-a-path-metric" resp) n1 n2 n4 lo' hi' r1 r2 r3
+     else Forall (fun col => sget col row = None) REV_FIELDS).
+Proof.
+  intros o resp eqp margin pdbm row S B (src & mid & dst & P & Hs & Hd) H.
+  destruct S as (kv & -> & I & HS). rewrite B in HS.
+  destruct HS as (NP & pp & PPj & (ppkv & -> & M1 & M2 & lab & objs & L & J & R)).
+  unfold spec_labels in L. rewrite B in L.
+  destruct (o_N o) as [n|]; [|discriminate L]. destruct (o_M o) as [m|]; [|discriminate L]. injection L as <-.
+  apply RouteSpec_Stated in R.
+  destruct (items_served o (combine n m) src mid dst P Hs Hd) as (Mid & EI).
+  assert (G : get_srce_dest_trx objs 2 3 = Ok (h_uid src, h_uid dst, o_tsp o, o_mode o)).
+  { destruct (nth_last3 _ ([IHop (h_uid src) (h_uid src); ILabel (combine n m); ITsp (o_tsp o) (o_mode o)] ++ Mid)
+                (IHop (h_uid dst) (h_uid dst)) (ILabel (combine n m)) (ITsp (o_tsp o) (o_mode o))) as [Ln Nl].
+    rewrite <- EI in Ln, Nl.
+    eapply gsdt_stated; [exact R| | exact Ln | exact Nl |]; rewrite EI; reflexivity. }
+  destruct M1 as (rx & pm & l & F & Jm & E & Hm).
+  destruct (jsontopath_metric_full rx o l pm pdbm E Hm) as
+    (m1 & m2 & m4 & lo & hi & p1 & p2 & p3 & j1 & j2 & j4 & j5 & j6 & j7 & j8 & j9 & q11 &
+     Q1 & Q2 & Q4 & Q5 & Q6 & P1 & P2 & P3 & [R1 V1] & [R2 V2] & [R4 V4] & [R5 V5] & [R6 V6] & [R7 V7] &
+     [R8 V8] & [R9 V9] & [R11 V11] & JM).
+  unfold csv_row in H. rewrite I, NP, PPj, J, G in H. cbn [bind] in H.
+  unfold jsontoparams in H. rewrite J, (csv_hops_stated _ _ R), (csv_labels_stated _ _ R) in H. cbn [bind] in H.
+  destruct (o_mode o) as [mname|] eqn:MO; [|discriminate H].
+  destruct (sget (o_tsp o) eqp) as [modes|] eqn:SG; [|discriminate H].
+  destruct (find (fun r => String.eqb (m_format r) mname) modes) as [md|] eqn:FD; [|discriminate H].
+  rewrite Jm, JM in H. cbn [bind nth_error] in H.
+  destruct V5 as (q5 & -> & V5). cbn [raw_of cell_ge bind] in H.
+  destruct (Qeq_bool (round2q (m_bitrate md / giga)) 0); [discriminate H|].
+  assert (NB : Qceiling (round2q (q11 / (1000000000 # 1)) / round2q (m_bitrate md / giga)) =
+               Qceiling (round2q (o_bw o / giga) / round2q (m_bitrate md / giga))).
+  { apply Qceiling_comp. apply Qdiv_comp; [|reflexivity]. apply round2q_compat. unfold giga.
+    apply Qdiv_comp; [exact V11|reflexivity]. }
+  rewrite NB in H.
+  assert (ML : metric_list "path-metric" (JObj kv) = pm).
+  { unfold metric_list, pp_field. cbn [response_pp]. rewrite PPj, Jm. reflexivity. }
+  exists rx, mname, md, m1, m2, m4, lo, hi, p1, p2, p3.
+  split; [exact F|]. split; [reflexivity|]. split; [unfold mode_lookup; rewrite SG; exact FD|].
+  split; [repeat split; assumption|]. rewrite ML.
+  assert (V5' : mval_rel (MNum (round2q lo)) (JNum q5)) by (exists q5; split; [reflexivity|exact V5]).
+  destruct (o_bidir o) eqn:BD.
+  - destruct M2 as (rv & pm' & l' & F' & J' & E' & Hm').
+    destruct (jsontopath_metric_full rv o l' pm' pdbm E' Hm') as
+      (n1 & n2 & n4 & lo' & hi' & r1 & r2 & r3 & k1 & k2 & k4 & k5 & k6 & k7 & k8 & k9 & q11' &
+       Q1' & Q2' & Q4' & Q5' & Q6' & P1' & P2' & P3' & [S1 W1] & [S2 W2] & [S4 W4] & [S5 W5] & [S6 W6] & [S7 W7] &
+       [S8 W8] & [S9 W9] & _ & JM').
+    rewrite J', JM' in H. cbn [bind] in H. injection H as <-.
+    assert (ML' : metric_list "z-a-path-metric" (JObj kv) = pm').
+    { unfold metric_list, pp_field. cbn [response_pp]. rewrite PPj, J'. reflexivity. }
+    split; [unfold metric_columns; cbn [append];
+            repeat split; [solve_prints R4 V4|solve_prints R2 V2|solve_prints R1 V1|solve_prints R5 V5'|
+                           solve_prints R6 V6|solve_prints R7 V7|solve_prints R8 V8|solve_prints R9 V9]|].
+    split; [sget_simp; reflexivity|]. split; [sget_simp; reflexivity|]. split; [sget_simp; reflexivity|].
+    split; [split; sget_simp; reflexivity|].
+    exists rv, n1, n2, n4, lo', hi', r1, r2, r3. split; [exact F'|]. split; [repeat split; assumption|].
+    rewrite ML'. unfold metric_columns. cbn [append].
+    repeat split; [solve_prints S4 W4|solve_prints S2 W2|solve_prints S1 W1|solve_prints S5 W5|
+                   solve_prints S6 W6|solve_prints S7 W7|solve_prints S8 W8|solve_prints S9 W9].
+  - rewrite M2 in H. cbn [bind] in H. injection H as <-.
+    split; [unfold metric_columns; cbn [append];
+            repeat split; [solve_prints R4 V4|solve_prints R2 V2|solve_prints R1 V1|solve_prints R5 V5'|
+                           solve_prints R6 V6|solve_prints R7 V7|solve_prints R8 V8|solve_prints R9 V9]|].
+    split; [sget_simp; reflexivity|]. split; [sget_simp; reflexivity|]. split; [sget_simp; reflexivity|].
+    split; [split; sget_simp; reflexivity|].
+    unfold REV_FIELDS. repeat constructor; sget_simp; reflexivity.
+Qed.
+
+(* the same columns for a request blocked with a candidate path (no bandwidth, no transponder count) *)
+Theorem csv_cells_blocked : forall o resp eqp margin pdbm row r,
+  Spec o resp -> o_block o = Some r -> mem_s r BLOCKING_NOPATH = false ->
+  csv_row eqp margin pdbm resp = Ok row ->
+  exists rx m1 m2 m4 lo hi p1 p2 p3,
+    o_fwd o = Some rx /\ receiver_figures rx m1 m2 m4 lo hi p1 p2 p3 /\
+    metric_columns "" row (metric_list "path-metric" resp) m1 m2 m4 lo hi p1 p2 p3 /\
+    sget "input power (dBm)" row = Some (CNum (round2q pdbm)) /\
+    sget "total cost" row = None /\
+    (if o_bidir o then
+       exists rv n1 n2 n4 lo' hi' r1 r2 r3,
+         o_rev o = Some rv /\ receiver_figures rv n1 n2 n4 lo' hi' r1 r2 r3 /\
+         metric_columns "reversed path " row (metric_list "z-a-path-metric" resp) n1 n2 n4 lo' hi' r1 r2 r3
+     else Forall (fun col => sget col row = None) REV_FIELDS).
+Proof.
+  intros o resp eqp margin pdbm row r S B MB H.
+  destruct S as (kv & -> & I & HS). rewrite B in HS. destruct HS as (NPP & np & N1 & N2 & HS).
+  unfold csv_row in H. rewrite I, N1, N2, MB in H. rewrite MB in HS.
+  destruct HS as (pp & PPj & (ppkv & -> & M1 & M2 & lab & objs & L & J & R)).
+  unfold spec_labels in L. rewrite B in L. injection L as <-.
+  apply RouteSpec_Stated in R. rewrite PPj, J in H.
+  destruct (get_srce_dest_trx objs 1 2) as [[[[s0 d0] ty0] mo0]|] eqn:G; [|discriminate H]. cbn [bind] in H.
+  unfold jsontoparams in H. rewrite J, (csv_hops_stated _ _ R), (csv_labels_stated _ _ R) in H. cbn [bind] in H.
+  destruct mo0 as [mname0|]; [|discriminate H].
+  destruct (sget ty0 eqp) as [modes|] eqn:SG; [|discriminate H].
+  destruct (find (fun r => String.eqb (m_format r) mname0) modes) as [md|] eqn:FD; [|discriminate H].
+  destruct M1 as (rx & pm & l & F & Jm & E & Hm).
+  destruct (jsontopath_metric_full rx o l pm pdbm E Hm) as
+    (m1 & m2 & m4 & lo & hi & p1 & p2 & p3 & j1 & j2 & j4 & j5 & j6 & j7 & j8 & j9 & q11 &
+     Q1 & Q2 & Q4 & Q5 & Q6 & P1 & P2 & P3 & [R1 V1] & [R2 V2] & [R4 V4] & [R5 V5] & [R6 V6] & [R7 V7] &
+     [R8 V8] & [R9 V9] & [R11 V11] & JM).
+  rewrite Jm, JM in H. cbn [bind] in H.
+  assert (ML : metric_list "path-metric" (JObj kv) = pm).
+  { unfold metric_list, pp_field. cbn [response_pp]. rewrite NPP, N1, PPj, Jm. reflexivity. }
+  exists rx, m1, m2, m4, lo, hi, p1, p2, p3.
+  split; [exact F|]. split; [repeat split; assumption|]. rewrite ML.
+  destruct (o_bidir o) eqn:BD.
+  - destruct M2 as (rv & pm' & l' & F' & J' & E' & Hm').
+    destruct (jsontopath_metric_full rv o l' pm' pdbm E' Hm') as
+      (n1 & n2 & n4 & lo' & hi' & r1 & r2 & r3 & k1 & k2 & k4 & k5 & k6 & k7 & k8 & k9 & q11' &
+       Q1' & Q2' & Q4' & Q5' & Q6' & P1' & P2' & P3' & [S1 W1] & [S2 W2] & [S4 W4] & [S5 W5] & [S6 W6] & [S7 W7] &
+       [S8 W8] & [S9 W9] & _ & JM').
+    rewrite J', JM' in H. cbn [bind] in H. injection H as <-.
+    assert (ML' : metric_list "z-a-path-metric" (JObj kv) = pm').
+    { unfold metric_list, pp_field. cbn [response_pp]. rewrite NPP, N1, PPj, J'. reflexivity. }
+    split; [unfold metric_columns; cbn [append];
+            repeat split; [solve_prints R4 V4|solve_prints R2 V2|solve_prints R1 V1|solve_prints R5 V5|
+                           solve_prints R6 V6|solve_prints R7 V7|solve_prints R8 V8|solve_prints R9 V9]|].
+    split; [sget_simp; reflexivity|]. split; [sget_simp; reflexivity|].
+    exists rv, n1, n2, n4, lo', hi', r1, r2, r3. split; [exact F'|]. split; [repeat split; assumption|].
+    rewrite ML'. unfold metric_columns. cbn [append].
+    repeat split; [solve_prints S4 W4|solve_prints S2 W2|solve_prints S1 W1|solve_prints S5 W5|
+                   solve_prints S6 W6|solve_prints S7 W7|solve_prints S8 W8|solve_prints S9 W9].
+  - rewrite M2 in H. cbn [bind] in H. injection H as <-.
+    split; [unfold metric_columns; cbn [append];
+            repeat split; [solve_prints R4 V4|solve_prints R2 V2|solve_prints R1 V1|solve_prints R5 V5|
+                           solve_prints R6 V6|solve_prints R7 V7|solve_prints R8 V8|solve_prints R9 V9]|].
+    split; [sget_simp; reflexivity|]. split; [sget_simp; reflexivity|].
+    unfold REV_FIELDS. repeat constructor; sget_simp; reflexivity.
+Qed.
